@@ -89,6 +89,11 @@ pub enum Spec {
     /// a daylight saving rule in its footer (`FOOTERS[i]`): everything after
     /// the table is computed from the rule.
     TzifFooter(u8),
+    /// `TimeZone::system()` with `TZ` naming a TZif file outside any
+    /// `zoneinfo/` directory: a heap TZif zone *without a name*, of which
+    /// jiff's process-global system-zone cache keeps a handle of its own for
+    /// as long as it likes (so only the handles of the program are counted).
+    System,
     /// `jiff::tz::get!` static (no heap).
     Static(u8),
     /// Heap TZif built from the *same name and bytes* as `Static(i)` (the
@@ -120,6 +125,7 @@ impl Spec {
                 | Spec::TzifSynth { .. }
                 | Spec::TzifNamed { .. }
                 | Spec::TzifFooter(_)
+                | Spec::System
                 | Spec::TzifBundled(_)
                 | Spec::Db(_)
         )
@@ -133,6 +139,7 @@ impl Spec {
             | Spec::TzifSynth { .. }
             | Spec::TzifNamed { .. }
             | Spec::TzifFooter(_)
+            | Spec::System
             | Spec::TzifBundled(_)
             | Spec::Db(_) => 2,
             Spec::Static(_) => 3,
@@ -148,6 +155,7 @@ impl Spec {
             Spec::TzifSynth { .. } => "tzif_synth",
             Spec::TzifNamed { .. } => "tzif_named",
             Spec::TzifFooter(_) => "tzif_footer_rule",
+            Spec::System => "system_unnamed_tzif",
             Spec::TzifBundled(_) => "tzif_bundled",
             Spec::Db(_) => "from_database",
             Spec::Static(_) => "static",
@@ -300,7 +308,7 @@ fn spec(rng: &mut Rng, pool: &[Spec]) -> Spec {
 }
 
 pub fn fresh_spec(rng: &mut Rng) -> Spec {
-    match rng.weighted(&[6, 4, 18, 20, 18, 12, 12, 10, 8, 8]) {
+    match rng.weighted(&[6, 4, 18, 20, 18, 12, 12, 10, 8, 8, 5]) {
         0 => Spec::Utc,
         1 => Spec::Unknown,
         2 => {
@@ -316,7 +324,8 @@ pub fn fresh_spec(rng: &mut Rng) -> Spec {
         6 => Spec::Static(rng.below(2 * N_STATIC as u64) as u8),
         7 => Spec::TzifNamed { name: rng.below(2) as u8, k: 1 + rng.below(3) as u32 },
         8 => Spec::TzifBundled(rng.below(N_STATIC as u64) as u8),
-        _ => Spec::TzifFooter(rng.below(FOOTERS.len() as u64) as u8),
+        9 => Spec::TzifFooter(rng.below(FOOTERS.len() as u64) as u8),
+        _ => Spec::System,
     }
 }
 
@@ -536,6 +545,10 @@ pub fn generate_small(rng: &mut Rng) -> Case {
                     if let Spec::TzifReal(i) = spec {
                         // 8: pacific-honolulu, 10: utc
                         *i = if *i % 2 == 0 { 8 } else { 10 };
+                    }
+                    // No environment or file system under Miri's isolation.
+                    if matches!(spec, Spec::System) {
+                        *spec = Spec::TzifFooter(1);
                     }
                 }
                 Op::Send { to, .. } => *to %= n,
